@@ -381,7 +381,7 @@ func genStatus(r *rand.Rand, id string, size int, total int) []string {
 
 var forgeRecipes = []string{"own", "copiedid", "copiedblock", "foreignkey", "otherlog", "badhash",
 	"mut-payload", "mut-time", "mut-clockid", "mut-next", "mut-refs", "mut-key", "mut-sig",
-	"mut-identid", "mut-identpk", "mut-identsig", "mut-logid"}
+	"mut-identid", "mut-identpk", "mut-identsig", "mut-logid", "othertype", "mut-identtype"}
 
 // genForge: write lists of every shape, non-writers, forged / tampered / foreign entries delivered by
 // every route, alone, mixed with valid heads at any position, or hidden behind a colluding writer's
